@@ -1163,3 +1163,644 @@ func condPos(ifi *ssa.If) token.Pos {
 	}
 	return token.NoPos
 }
+
+// derivedReaderFields: struct fields of internal/imapwire into which a value
+// derived from Decoder.r is stored (LiteralReader.r = io.LimitReader(dec.r, n)):
+// reading through them consumes the connection's input just like dec.r.
+var derivedReaderCache map[*types.Var]bool
+
+func derivedReaderFields(p *Program) map[*types.Var]bool {
+	if derivedReaderCache != nil {
+		return derivedReaderCache
+	}
+	out := map[*types.Var]bool{}
+	var fromR func(v ssa.Value, d int) bool
+	fromR = func(v ssa.Value, d int) bool {
+		if v == nil || d > 6 {
+			return false
+		}
+		if r, ok := loadedField(v); ok && (r.is("Decoder", "r") || out[r.Field]) {
+			return true
+		}
+		switch x := v.(type) {
+		case *ssa.MakeInterface:
+			return fromR(x.X, d+1)
+		case *ssa.ChangeInterface:
+			return fromR(x.X, d+1)
+		case *ssa.Call:
+			if o := calleeObj(x); o != nil && o.Pkg() != nil && (o.Pkg().Path() == "io" || o.Pkg().Path() == "bufio") {
+				for _, a := range x.Call.Args {
+					if fromR(a, d+1) {
+						return true
+					}
+				}
+			}
+		}
+		return false
+	}
+	for changed := true; changed; {
+		changed = false
+		for _, fn := range p.SrcFuncs("internal/imapwire") {
+			allInstrs(fn, func(i ssa.Instruction) {
+				st, ok := i.(*ssa.Store)
+				if !ok {
+					return
+				}
+				fa, ok := st.Addr.(*ssa.FieldAddr)
+				if !ok {
+					return
+				}
+				r, ok := fieldOf(fa)
+				if !ok || r.Field == nil || out[r.Field] || r.is("Decoder", "r") {
+					return
+				}
+				if fromR(st.Val, 0) {
+					out[r.Field] = true
+					changed = true
+				}
+			})
+		}
+	}
+	derivedReaderCache = out
+	return out
+}
+
+// ruleEOLFlagOnConsumption: C04.i, the converse of C04.g. Whoever consumes
+// input from the connection (a read on Decoder.r or on a reader derived from
+// it) leaves the end-of-line flag cleared: the store of false precedes the
+// read on every path (or the reading object is detached from the decoder —
+// its back-pointer tested nil), or it follows on every path to a return. A
+// reader that consumes a literal's payload without clearing the flag leaves
+// DiscardLine believing the line has ended, and the rest of the command line
+// is then parsed as the next command.
+func ruleEOLFlagOnConsumption(c *Ctx, rule string) {
+	p := c.P
+	n := 0
+	isReader := func(v ssa.Value) bool {
+		for {
+			if mi, ok := v.(*ssa.MakeInterface); ok {
+				v = mi.X
+				continue
+			}
+			if ci, ok := v.(*ssa.ChangeInterface); ok {
+				v = ci.X
+				continue
+			}
+			break
+		}
+		r, ok := loadedField(v)
+		return ok && (r.is("Decoder", "r") || derivedReaderFields(p)[r.Field])
+	}
+	reading := map[string]bool{"ReadByte": true, "Read": true, "ReadString": true, "ReadLine": true, "ReadBytes": true, "ReadRune": true, "ReadSlice": true, "Discard": true, "WriteTo": true}
+	consumes := func(call ssa.CallInstruction) bool {
+		cc := call.Common()
+		o := calleeObj(call)
+		if o == nil {
+			return false
+		}
+		if len(cc.Args) > 0 && !cc.IsInvoke() && isReader(cc.Args[0]) && reading[o.Name()] {
+			return true
+		}
+		if cc.IsInvoke() && isReader(cc.Value) && reading[o.Name()] {
+			return true
+		}
+		if o.Pkg() != nil && o.Pkg().Path() == "io" {
+			switch o.Name() {
+			case "CopyN", "Copy", "CopyBuffer", "ReadFull", "ReadAtLeast", "ReadAll":
+				for _, a := range cc.Args {
+					if isReader(a) {
+						return true
+					}
+				}
+			}
+		}
+		return false
+	}
+	for _, fn := range p.SrcFuncs("internal/imapwire") {
+		var sites []ssa.CallInstruction
+		allInstrs(fn, func(i ssa.Instruction) {
+			if call, ok := i.(ssa.CallInstruction); ok && consumes(call) {
+				sites = append(sites, call)
+			}
+		})
+		if len(sites) == 0 {
+			continue
+		}
+		gen := func(f facts, i ssa.Instruction) facts {
+			if st, ok := i.(*ssa.Store); ok {
+				if r, ok := fieldOf(st.Addr); ok && r.is("Decoder", "crlf") {
+					if k, ok := st.Val.(*ssa.Const); ok && k.Value != nil {
+						if k.Value.String() == "false" {
+							return f.with("cleared")
+						}
+						return f.without(func(s string) bool { return s == "cleared" })
+					}
+				}
+			}
+			if call, ok := i.(ssa.CallInstruction); ok {
+				// a peek: the byte is put back
+				if o := calleeObj(call); o != nil && (o.Name() == "mustUnreadByte" || o.Name() == "UnreadByte") {
+					return f.with("unread")
+				}
+				if consumes(call) {
+					return f.without(func(s string) bool { return s == "unread" || strings.HasPrefix(s, "failed:") })
+				}
+			}
+			return f
+		}
+		errOf := func(v ssa.Value) ssa.CallInstruction {
+			if ex, ok := v.(*ssa.Extract); ok {
+				if call, ok := ex.Tuple.(*ssa.Call); ok && consumes(call) && isErrorType(ex.Type()) {
+					return call
+				}
+			}
+			return nil
+		}
+		edge := func(f facts, b *ssa.BasicBlock, succ int) facts {
+			for _, a := range edgeAtoms(b, succ) {
+				// the read failed (nothing consumed, or the decoder is in error anyway)
+				if call := errOf(a.V); call != nil {
+					if a.Nil == -1 || (a.Op == token.EQL && a.Other != nil) {
+						f = f.with(fmt.Sprintf("failed:%p", call))
+					}
+				}
+				if a.Nil == 1 {
+					if r, ok := loadedField(a.V); ok && r.Field != nil {
+						if pt, ok := r.Field.Type().Underlying().(*types.Pointer); ok {
+							if nm, ok := pt.Elem().(*types.Named); ok && nm.Obj().Name() == "Decoder" {
+								f = f.with("cleared") // detached from the decoder: nothing of the connection is read through it
+							}
+						}
+					}
+				}
+			}
+			return f
+		}
+		flow := mustFlow(fn, facts{}, gen, edge)
+		for _, site := range sites {
+			f, reach := flow.at(site)
+			if !reach {
+				continue
+			}
+			ok := f.has("cleared") || f.has("detached")
+			if !ok {
+				// cleared afterwards on every path to a return?
+				ok = true
+				any := false
+				for _, r := range returnsOf(fn) {
+					if r.Block() != site.Block() && !reaches(site.Block(), r.Block()) {
+						continue
+					}
+					any = true
+					rf, rr := flow.at(r)
+					if rr && !rf.has("cleared") && !rf.has("unread") && !rf.has(fmt.Sprintf("failed:%p", site)) {
+						ok = false
+					}
+				}
+				if !any {
+					ok = false
+				}
+			}
+			n++
+			key := fmt.Sprintf("%s: read#%d", fnKey(fn), countKey(c, rule, fnKey(fn)+": read#")+1)
+			c.check(ok, rule, key, site.Pos(),
+				"the end-of-line flag is cleared around this read of the connection (or the reader is detached from the decoder)",
+				"this reads input from the connection (a literal's payload) and leaves Decoder.crlf as it was — still true after the CRLF of the literal header: DiscardLine then takes the line for finished, and what follows the literal on the same command line is parsed as the next command")
+		}
+	}
+	if n == 0 {
+		c.unresolvedRoot("reads of the connection in internal/imapwire")
+	}
+}
+
+// ruleNoFreeTextInHandlers: C04.j. Decoder.Text/ExpectText take everything up
+// to the end of the line, a trailing literal header ("{9+}") included; a
+// handler that fails after such a read leaves DiscardLine nothing to see, and
+// the announced literal's payload is then read as commands. On the server
+// only DiscardLine may read free text.
+func ruleNoFreeTextInHandlers(c *Ctx, rule string) {
+	p := c.P
+	text := p.Func("internal/imapwire", "Decoder", "Text")
+	if text == nil {
+		c.unresolvedRoot("(*Decoder).Text")
+		return
+	}
+	isText := func(cal *ssa.Function) bool {
+		if cal == nil {
+			return false
+		}
+		if cal == text {
+			return true
+		}
+		// a thin wrapper (ExpectText)
+		if pkgPathOf(cal) == modPath+"/internal/imapwire" && cal != p.Func("internal/imapwire", "Decoder", "DiscardLine") {
+			w := false
+			allInstrs(cal, func(i ssa.Instruction) {
+				if call, ok := i.(ssa.CallInstruction); ok && staticCallee(call) == text {
+					w = true
+				}
+			})
+			return w
+		}
+		return false
+	}
+	n, bad := 0, 0
+	for _, fn := range p.SrcFuncs("imapserver", "imapserver/imapmemserver") {
+		allInstrs(fn, func(i ssa.Instruction) {
+			call, ok := i.(ssa.CallInstruction)
+			if !ok {
+				return
+			}
+			if !isDecoderCall(call) {
+				return
+			}
+			n++
+			if isText(staticCallee(call)) {
+				bad++
+				c.fail(rule, fmt.Sprintf("%s: free text#%d", fnKey(fn), countKey(c, rule, fnKey(fn)+": free text#")+1), call.Pos(),
+					"this server-side parser reads the remainder of the line as free text: a trailing literal header is swallowed with it, so when the command is then refused DiscardLine cannot skip the literal and its payload is executed as commands")
+			}
+		})
+	}
+	if n == 0 {
+		c.unresolvedRoot("decoder calls in imapserver")
+		return
+	}
+	if bad == 0 {
+		c.ok(rule, "no free-text read in the server's parsers", token.NoPos, fmt.Sprintf("%d decoder calls in imapserver, none of them Text/ExpectText (only DiscardLine reads free text)", n))
+	}
+}
+
+// ruleHandOverReleasedOnError: C10.m. A reader wrapper that hands the
+// connection back to the read goroutine by closing a channel (the goroutine
+// waits on it while the consumer reads a literal) must do so on every error
+// of the inner read, not only at io.EOF: after a read error in the middle of
+// the literal (connection closed by Client.Close, read deadline, reset) no
+// EOF ever comes, the read goroutine waits for ever and Client.Close blocks
+// on it. Every return of such a Read either reports a nil error, or has
+// closed the channel, or has found it already nil.
+func ruleHandOverReleasedOnError(c *Ctx, rule string) {
+	p := c.P
+	n := 0
+	for _, fn := range p.SrcFuncs("imapclient") {
+		if fn.Name() != "Read" || fn.Signature.Recv() == nil || fn.Signature.Results().Len() != 2 || !isErrorType(fn.Signature.Results().At(1).Type()) {
+			continue
+		}
+		// closes a channel field of its receiver?
+		var chanField *types.Var
+		isChanLoad := func(v ssa.Value) *types.Var {
+			if r, ok := loadedField(v); ok && r.Field != nil {
+				if _, isCh := r.Field.Type().Underlying().(*types.Chan); isCh {
+					return r.Field
+				}
+			}
+			return nil
+		}
+		allInstrs(fn, func(i ssa.Instruction) {
+			if call, ok := i.(*ssa.Call); ok {
+				if b, ok := call.Call.Value.(*ssa.Builtin); ok && b.Name() == "close" && len(call.Call.Args) == 1 {
+					if f := isChanLoad(call.Call.Args[0]); f != nil {
+						chanField = f
+					}
+				}
+			}
+		})
+		if chanField == nil {
+			continue
+		}
+		// the inner read: a call returning (int, error) whose error is what this Read returns
+		gen := func(f facts, i ssa.Instruction) facts {
+			if call, ok := i.(*ssa.Call); ok {
+				if b, ok := call.Call.Value.(*ssa.Builtin); ok && b.Name() == "close" && len(call.Call.Args) == 1 && isChanLoad(call.Call.Args[0]) == chanField {
+					return f.with("released")
+				}
+			}
+			return f
+		}
+		edge := func(f facts, b *ssa.BasicBlock, succ int) facts {
+			for _, a := range edgeAtoms(b, succ) {
+				if a.Nil == 1 {
+					if isErrorType(a.V.Type()) {
+						f = f.with("released") // nothing failed on this path
+					}
+					if isChanLoad(a.V) == chanField {
+						f = f.with("released") // already handed back
+					}
+				}
+			}
+			return f
+		}
+		flow := mustFlow(fn, facts{}, gen, edge)
+		for k, r := range returnsOf(fn) {
+			f, reach := flow.at(r)
+			if !reach {
+				continue
+			}
+			ev := unspill(r.Results[1])
+			if isNilConst(ev) {
+				continue
+			}
+			// a sticky error returned without touching the inner reader: the hand-over happened when it was recorded
+			if ld, ok := loadedField(ev); ok && ld.Field != nil && isErrorType(ld.Field.Type()) {
+				continue
+			}
+			n++
+			c.check(f.has("released"), rule, fmt.Sprintf("%s: return#%d", fnKey(fn), k+1), r.Pos(),
+				"the hand-over channel is closed (or already nil) whenever a non-nil error is returned",
+				"this Read can return a non-nil error of the inner reader without closing "+chanField.Name()+": only io.EOF hands the connection back, so after a read error in the middle of a literal the read goroutine waits on the channel for ever and Client.Close never returns")
+		}
+	}
+	if n == 0 {
+		c.unresolvedRoot("Read wrappers that close a hand-over channel")
+	}
+}
+
+// ruleReaderClosedChannelsSelected: C10.n. A channel that only the read
+// goroutine closes, at a point it reaches conditionally (after parsing the
+// rest of a response), may never be closed: the goroutine can fail first. A
+// receive on such a channel outside the read goroutine must therefore be a
+// select that also watches the goroutine's termination channel (Client.decCh,
+// closed by its deferred teardown). Channels closed by completeCommand /
+// closeWithError (guaranteed by C10.a–c) and by deferred calls are exempt.
+func ruleReaderClosedChannelsSelected(c *Ctx, rule string) {
+	p := c.P
+	read := p.Func("imapclient", "Client", "read")
+	cwe := p.Func("imapclient", "Client", "closeWithError")
+	cc := p.Func("imapclient", "Client", "completeCommand")
+	if read == nil || cwe == nil || cc == nil {
+		c.unresolvedRoot("(*Client).read / closeWithError / completeCommand")
+		return
+	}
+	guaranteed := staticReach([]*ssa.Function{cwe, cc}, 6)
+	readerAll := staticReach([]*ssa.Function{read}, 12)
+	reader := map[*ssa.Function]bool{}
+	for f := range readerAll {
+		if !guaranteed[f] {
+			reader[f] = true
+		}
+	}
+	chanClass := func(v ssa.Value) (field *types.Var, mk *ssa.MakeChan) {
+		for k := 0; k < 6 && v != nil; k++ {
+			if r, ok := loadedField(v); ok && r.Field != nil {
+				return r.Field, nil
+			}
+			switch x := v.(type) {
+			case *ssa.MakeChan:
+				// stored into a field?
+				for _, ref := range *x.Referrers() {
+					switch u := ref.(type) {
+					case *ssa.Store:
+						if r, ok := fieldOf(u.Addr); ok && r.Field != nil {
+							return r.Field, x
+						}
+					case *ssa.ChangeType:
+						for _, r2 := range *u.Referrers() {
+							if st, ok := r2.(*ssa.Store); ok {
+								if r, ok := fieldOf(st.Addr); ok && r.Field != nil {
+									return r.Field, x
+								}
+							}
+						}
+					}
+				}
+				return nil, x
+			case *ssa.ChangeType:
+				v = x.X
+			case *ssa.UnOp:
+				if x.Op == token.MUL {
+					if al, ok := x.X.(*ssa.Alloc); ok {
+						// a local cell: its single store
+						var sv ssa.Value
+						for _, ref := range *al.Referrers() {
+							if st, ok := ref.(*ssa.Store); ok && st.Addr == ssa.Value(al) {
+								sv = st.Val
+							}
+						}
+						v = sv
+						continue
+					}
+				}
+				return nil, nil
+			default:
+				return nil, nil
+			}
+		}
+		return nil, nil
+	}
+	// close sites per field
+	type site struct {
+		fn       *ssa.Function
+		deferred bool
+		pos      token.Pos
+	}
+	closes := map[*types.Var][]site{}
+	for _, fn := range p.SrcFuncs("imapclient") {
+		allInstrs(fn, func(i ssa.Instruction) {
+			ci, ok := i.(ssa.CallInstruction)
+			if !ok {
+				return
+			}
+			b, ok := ci.Common().Value.(*ssa.Builtin)
+			if !ok || b.Name() != "close" || len(ci.Common().Args) != 1 {
+				return
+			}
+			f, _ := chanClass(ci.Common().Args[0])
+			if f == nil {
+				return
+			}
+			_, isDefer := i.(*ssa.Defer)
+			closes[f] = append(closes[f], site{fn, isDefer, i.Pos()})
+		})
+	}
+	decCh := func(v ssa.Value) bool {
+		r, ok := loadedField(v)
+		return ok && r.is("Client", "decCh")
+	}
+	n := 0
+	check := func(fn *ssa.Function, ch ssa.Value, pos token.Pos, selected bool) {
+		f, _ := chanClass(ch)
+		if f == nil {
+			return
+		}
+		cs := closes[f]
+		if len(cs) == 0 {
+			return
+		}
+		for _, s := range cs {
+			if !reader[s.fn] || s.deferred {
+				return // closed from somewhere that does not depend on the reader's progress
+			}
+		}
+		n++
+		key := fmt.Sprintf("%s: <-%s", fnKey(fn), f.Name())
+		c.check(selected, rule, key, pos,
+			"the receive is a select that also watches the read goroutine's termination (decCh)",
+			fmt.Sprintf("%s is closed only by the read goroutine, at %s, which it reaches only if the rest of the response parses; this blocking receive has no alternative, so when the connection fails first (e.g. it is cut between the tagged OK and its CRLF) the caller waits for ever", f.Name(), p.pos(cs[0].pos)))
+	}
+	for _, fn := range p.SrcFuncs("imapclient") {
+		if reader[fn] || guaranteed[fn] {
+			continue
+		}
+		allInstrs(fn, func(i ssa.Instruction) {
+			switch x := i.(type) {
+			case *ssa.UnOp:
+				if x.Op == token.ARROW {
+					check(fn, x.X, x.Pos(), false)
+				}
+			case *ssa.Select:
+				if !x.Blocking {
+					return
+				}
+				watch := false
+				for _, st := range x.States {
+					if st.Dir == types.RecvOnly && decCh(st.Chan) {
+						watch = true
+					}
+				}
+				for _, st := range x.States {
+					if st.Dir == types.RecvOnly && !decCh(st.Chan) {
+						check(fn, st.Chan, st.Pos, watch)
+					}
+				}
+			}
+		})
+	}
+	if n == 0 {
+		c.unresolvedRoot("receives on channels closed only by the read goroutine")
+	}
+}
+
+// ruleRefusalIsNotTeardown: C12.n. When the server answers a synchronising
+// literal with a tagged NO/BAD instead of a continuation request, the
+// encoder is put into its error state with that *imap.Error (so that nothing
+// more of the command is written) and the command's flush then sees it as the
+// result of writing the CRLF. That error completed the command; it is not a
+// connection failure: every teardown (closeWithError) fed by an encoder
+// error must be guarded by a failed errors.As(err, **imap.Error).
+func ruleRefusalIsNotTeardown(c *Ctx, rule string) {
+	p := c.P
+	cwe := p.Func("imapclient", "Client", "closeWithError")
+	if cwe == nil {
+		c.unresolvedRoot("(*Client).closeWithError")
+		return
+	}
+	isRefusalTest := func(v ssa.Value) bool {
+		call, ok := v.(*ssa.Call)
+		if !ok {
+			return false
+		}
+		o := calleeObj(call)
+		if o == nil || o.Pkg() == nil || o.Pkg().Path() != "errors" || o.Name() != "As" || len(call.Call.Args) != 2 {
+			return false
+		}
+		t := call.Call.Args[1].Type()
+		if mi, ok := call.Call.Args[1].(*ssa.MakeInterface); ok {
+			t = mi.X.Type()
+		}
+		return strings.Contains(t.String(), modPath+".Error")
+	}
+	fromEncoder := func(v ssa.Value) bool {
+		seen := map[ssa.Value]bool{}
+		var rec func(v ssa.Value, d int) bool
+		rec = func(v ssa.Value, d int) bool {
+			if v == nil || seen[v] || d > 6 {
+				return false
+			}
+			seen[v] = true
+			switch x := v.(type) {
+			case *ssa.Call:
+				if o := calleeObj(x); o != nil {
+					if rn := recvNamed(o); rn != nil && rn.Obj().Name() == "Encoder" {
+						return true
+					}
+				}
+			case *ssa.Extract:
+				return rec(x.Tuple, d+1)
+			case *ssa.Phi:
+				for _, e := range x.Edges {
+					if rec(e, d+1) {
+						return true
+					}
+				}
+			case *ssa.Parameter:
+				// a helper handed the error: look at its callers
+				fn := x.Parent()
+				idx := -1
+				for k, pr := range fn.Params {
+					if pr == x {
+						idx = k
+					}
+				}
+				for _, site := range callSitesOf(p, fn) {
+					args := site.Common().Args
+					if idx >= 0 && idx < len(args) && rec(args[idx], d+1) {
+						return true
+					}
+				}
+			}
+			return false
+		}
+		return rec(v, 0)
+	}
+	n := 0
+	for _, fn := range p.SrcFuncs("imapclient") {
+		var sites []*ssa.Call
+		allInstrs(fn, func(i ssa.Instruction) {
+			if call, ok := i.(*ssa.Call); ok && staticCallee(call) == cwe && len(call.Call.Args) == 2 && fromEncoder(call.Call.Args[1]) {
+				sites = append(sites, call)
+			}
+		})
+		if len(sites) == 0 {
+			continue
+		}
+		edge := func(f facts, b *ssa.BasicBlock, succ int) facts {
+			for _, a := range edgeAtoms(b, succ) {
+				if a.True == -1 && isRefusalTest(a.V) {
+					f = f.with("not-refusal")
+				}
+			}
+			return f
+		}
+		flow := mustFlow(fn, entryContextOr(fn, "not-refusal", isRefusalTest), nil, edge)
+		for _, site := range sites {
+			f, reach := flow.at(site)
+			if !reach {
+				continue
+			}
+			n++
+			c.check(f.has("not-refusal"), rule, fmt.Sprintf("%s: teardown on encoder error#%d", fnKey(fn), countKey(c, rule, fnKey(fn)+": teardown on encoder error#")+1), site.Pos(),
+				"the teardown is reached only when the encoder's error is not the server's tagged refusal",
+				"the client is torn down on any error of the command encoder, including the *imap.Error with which a refused synchronising literal (tagged NO/BAD instead of '+') poisons it: one refused command closes the connection and fails every other pending command")
+		}
+	}
+	if n == 0 {
+		c.unresolvedRoot("teardowns fed by a command-encoder error")
+	}
+}
+
+// entryContextOr: when fn is a helper whose every call site already holds the
+// fact (established by the same kind of edge in the caller), the fact holds
+// at entry.
+func entryContextOr(fn *ssa.Function, fact string, isTest func(ssa.Value) bool) facts {
+	sites := callSitesOf(gateProg, fn)
+	if len(sites) == 0 || fn.Object() == nil || fn.Object().Exported() {
+		return facts{}
+	}
+	for _, site := range sites {
+		caller := site.Parent()
+		edge := func(f facts, b *ssa.BasicBlock, succ int) facts {
+			for _, a := range edgeAtoms(b, succ) {
+				if a.True == -1 && isTest(a.V) {
+					f = f.with(fact)
+				}
+			}
+			return f
+		}
+		flow := mustFlow(caller, facts{}, nil, edge)
+		f, reach := flow.at(site)
+		if reach && !f.has(fact) {
+			return facts{}
+		}
+	}
+	return facts{}.with(fact)
+}
